@@ -512,7 +512,7 @@ func (w *worker[T, JobType]) TunePool(concurrency int) error {
 	shrinkPoolSize, minIdleWorkers := oldConcurrency-safeConcurrency, w.numMinIdleWorkers()
 
 	// if current concurrency is greater than the safe concurrency, shrink the pool size
-	for shrinkPoolSize > 0 && w.pool.Len() != minIdleWorkers {
+	for shrinkPoolSize > 0 && w.pool.Len() > minIdleWorkers {
 		if node := w.pool.PopBack(); node != nil {
 			w.pool.Remove(node)
 			node.Value.Stop()
